@@ -544,7 +544,47 @@ pub fn mutate(t: &mut Tape, d: &Dict) -> String {
 /// shapes aimed at specific branches read in the code
 pub fn shape(t: &mut Tape, d: &Dict) -> String {
     let n = 1 + t.pick(240);
-    match t.pick(32) {
+    match t.pick(35) {
+        32 => {
+            // inline definitions inside a conversion target: their constant factor and their value
+            format!(
+                "{} -> {}",
+                t.choose(&["1", "3 m", "2 kg", "0"]),
+                t.choose(&[
+                    "((x=2) - (x=5))^-1",
+                    "1/((x=2)-(x=5))",
+                    "(a = 3) - (b = 3)",
+                    "(a = 3 m) + (b = 3 m)",
+                    "1 / (y = 0)",
+                    "(y = 0)^-1",
+                    "(z = 2)^(w = 0)",
+                    "(q = m) / (q = m) - 1",
+                    "((x=2 m) - (x=2 m))^-1",
+                    "(x = 2) mod (y = 0)",
+                    "2 (x = 5)^-2147483648",
+                ])
+            )
+        }
+        33 => {
+            // durations right at the edge of what a date can take, as exact and as float numbers
+            let n = t.choose(&["9223372036854776", "9223372036854775", "9223372036854775807", "9223372036854.775807", "9223372036.854775807", "292277026596", "106751991167", "2562047788015"]);
+            let f = t.choose(&["", " exp(0)", " (1 + 1e-30)", " sqrt(1)", ".0", ".5"]);
+            let u = t.choose(&["s", "ms", "us", "ns", "hour", "day", "year", "min"]);
+            format!("{} {} {}{} {}", t.choose(&["now", "#2020-01-01#", "#0001-01-01#", "#9999-12-31 23:59:59#"]), t.choose(&["+", "-"]), n, f, u)
+        }
+        34 => {
+            // dimension exponents that land exactly on, or one off, the ends of the i64 range
+            let a = "(m^-2147483647)^2147483647";
+            let b = "m^-2147483647";
+            let tail = t.choose(&["m^-2", "m^-1", "m^-3", "", "/ m^2", "/ m"]);
+            let body = format!("{} {} {} {} {} {} {}", a, a, b, b, b, b, tail);
+            match t.pick(4) {
+                0 => body,
+                1 => format!("1 / ({})", body),
+                2 => format!("{} -> m", body),
+                _ => format!("({})^-1", body),
+            }
+        }
         31 => {
             // sums of substances (elements share molar_mass) with amounts of every kind
             let el = ["hydrogen", "oxygen", "carbon", "iron", "H", "O", "Fe", "water", "NaCl", "CH4"];
